@@ -380,9 +380,63 @@ func NontrivialC03(c *Case, r *Result) bool {
 
 // JudgeC15 checks the concurrency bound at every trace position.
 func JudgeC15(c *Case, r *Result) string {
-	if c.MaxActive > 0 {
-		if m := MaxOverlap(r.Trace); m > c.MaxActive {
-			return fmt.Sprintf("maxActiveRuns=%d but %d step commands were executing at once", c.MaxActive, m)
+	if c.MaxActive <= 0 {
+		return ""
+	}
+	if m := MaxOverlap(r.Trace); m > c.MaxActive {
+		return fmt.Sprintf("maxActiveRuns=%d but %d step commands were executing at once", c.MaxActive, m)
+	}
+	// "a step waiting out its retry interval counts as executing": after a failed
+	// attempt that is followed by another one the step holds its slot for the
+	// retry interval. The window used here starts at the exit event and lasts
+	// exactly the interval — the real wait begins a little later and is not
+	// shorter — so a command of another step that starts inside the window while
+	// the slots are full was started in excess of the limit.
+	type wait struct {
+		step     string
+		from, to int64
+	}
+	var waits []wait
+	an := Analyze(r.Trace)
+	us := map[int]int64{}
+	for _, ev := range r.Trace {
+		us[ev.Seq] = ev.US
+	}
+	for _, s := range c.Steps {
+		st := an[s.Name]
+		if st == nil || s.RetryIvUS <= 0 {
+			continue
+		}
+		for att, ex := range st.ExitOf {
+			if _, again := st.EnterOf[att+1]; again && st.ExitErr[att] != "" {
+				waits = append(waits, wait{s.Name, us[ex], us[ex] + int64(s.RetryIvUS)})
+			}
+		}
+	}
+	if len(waits) == 0 {
+		return ""
+	}
+	open := map[string]bool{}
+	for _, ev := range r.Trace {
+		if IsHandler(ev.Step) || ev.Step == "" {
+			continue
+		}
+		switch ev.Kind {
+		case EvExit:
+			delete(open, ev.Step)
+		case EvEnter:
+			open[ev.Step] = true
+			n := len(open)
+			var waiting []string
+			for _, w := range waits {
+				if w.step != ev.Step && !open[w.step] && ev.US > w.from && ev.US < w.to {
+					n++
+					waiting = append(waiting, w.step)
+				}
+			}
+			if len(waiting) > 0 && n > c.MaxActive {
+				return fmt.Sprintf("maxActiveRuns=%d: the command of step %q was started (seq %d) while %d command(s) were executing and step(s) %v were waiting out their retry interval — a step waiting out its retry interval counts as executing", c.MaxActive, ev.Step, ev.Seq, len(open)-1, waiting)
+			}
 		}
 	}
 	return ""
